@@ -62,7 +62,7 @@ def o1_header(ctx, msg_len, str_type):
     ctx.reached()
 
 
-def o2_fragments(ctx, n, lossy, toggle=False):
+def o2_fragments(ctx, n, lossy, toggle=False, routed=False):
     from circuitpython_nrf24l01.network.structs import RF24NetworkHeader
     clock = fresh_env(ctx)
     radio, net = new_net(clock, 0o1)
@@ -87,15 +87,16 @@ def o2_fragments(ctx, n, lossy, toggle=False):
         from checks.netcommon import outage_link
         slow_at = ctx.int("slow_at", 0, total - 1)
         outage_link(ctx, radio, clock, (2, 20, 30, 40, 50, 60, 70, 80, 90, 100, 200, None), only=lambda i: bool(slow_at == i))
-    mtype = ctx.int("type", 0, 127)
+    dst = 0o2 if routed else 0  # routed: via the master, awaiting a NETWORK_ACK that never comes (ack type 65..127)
+    mtype = ctx.int("type", 65, 127) if routed else ctx.int("type", 0, 127)
     msg = ctx.bytes("msg", n)
-    h = RF24NetworkHeader(0, mtype)
+    h = RF24NetworkHeader(dst, mtype)
     fid = ctx.int("frame_id", 0, 0xFFFF)
     h.frame_id = fid
     sent0 = len(radio.sent)
     ok = net.send(h, msg)
     ctx.check(h.message_type == mtype, "after sending, the caller's header shows its original type again")
-    ctx.check(s_and(h.from_node == 0o1, h.to_node == 0, h.frame_id == fid), "caller's header keeps origin/destination/id")
+    ctx.check(s_and(h.from_node == 0o1, h.to_node == dst, h.frame_id == fid), "caller's header keeps origin/destination/id")
     exch = radio.sent[sent0:]
     frames, seen = [], []
     for e in exch:
@@ -103,12 +104,15 @@ def o2_fragments(ctx, n, lossy, toggle=False):
             seen.append(e["uid"])
             frames.append(e["data"])
     if n > 24:
-        ref = FS.fragments(0o1, 0, fid, mtype, blist(msg))
+        ref = FS.fragments(0o1, dst, fid, mtype, blist(msg))
     else:
-        one = dict(from_node=0o1, to_node=0, frame_id=fid, message_type=mtype, reserved=0, len=n)
+        one = dict(from_node=0o1, to_node=dst, frame_id=fid, message_type=mtype, reserved=0, len=n)
         one.update({("b", j): b for j, b in enumerate(blist(msg))})
         ref = [one]
-    if lossy == "outage":
+    if routed:
+        ctx.check(ok == False, "False: every frame was accepted by the first hop but no NETWORK_ACK arrived")  # noqa: E712
+        ctx.check(len(frames) == total, "ceil(n/24) frames")
+    elif lossy == "outage":
         ctx.check(len(frames) <= total, "no more than ceil(n/24) distinct frames")
         if bool(ok == True):  # noqa: E712
             ctx.check(len(frames) == total, "send() answers True only after all ceil(n/24) frames went out")
@@ -127,7 +131,7 @@ def o2_fragments(ctx, n, lossy, toggle=False):
              rf["message_type"], rf["reserved"]] + [rf[("b", j)] for j in range(rf["len"])]
         ctx.check(len(fr) == len(w) and bytes_eq(fr, w), "on-air frame = reference fragmenter's frame (shared id, "
                   "first/more/last, descending counter, original type in the last reserved byte)")
-    if not lossy or (lossy == "outage" and bool(ok == True)):  # noqa: E712
+    if (not lossy and not routed) or (lossy == "outage" and bool(ok == True)):  # noqa: E712
         ra = FS.Reassembler()
         for fr in frames:
             ra.feed(fr[0] | (fr[1] << 8), fr[4] | (fr[5] << 8), fr[6], fr[7], fr[8:])
@@ -138,6 +142,37 @@ def o2_fragments(ctx, n, lossy, toggle=False):
                 ctx.check(s_and(m["type"] == mtype, m["origin"] == 0o1, len(m["data"]) == n and bytes_eq(m["data"], msg)),
                           "the reassembled message is the original message with its type")
     ctx.observe("frames", frames)
+    ctx.reached()
+
+
+def o4_frame_objects(ctx, n):
+    """the application's frame object stays the application's: write(frame_a); send(header_b, message_b); write(frame_a) again -
+    frame_a still holds A (all header fields and the message) and goes out as A both times"""
+    from circuitpython_nrf24l01.network.structs import RF24NetworkHeader, RF24NetworkFrame
+    clock = fresh_env(ctx)
+    radio, net = new_net(clock, 0o1)
+    radio.link = ScriptedLink(lambda k: True)
+    ta, tb = ctx.int("type_a", 0, 64), ctx.int("type_b", 0, 64)
+    msg_a, msg_b = ctx.bytes("msg_a", n), ctx.bytes("msg_b", 3)
+    fa = RF24NetworkFrame(RF24NetworkHeader(0, ta), msg_a)
+    ida = fa.header.frame_id
+
+    def is_a(what):
+        ctx.check(s_and(fa.header.to_node == 0, fa.header.message_type == ta, fa.header.frame_id == ida, fa.header.reserved == 0),
+                  what + ": the frame object's header is unchanged")
+        ctx.check(len(fa.message) == n and bool(bytes_eq(fa.message, msg_a)), what + ": the frame object's message is unchanged")
+    ctx.check(net.write(fa) == True, "write(frame_a) succeeds")  # noqa: E712
+    is_a("after write(frame_a)")
+    ctx.check(net.send(RF24NetworkHeader(0, tb), msg_b) == True, "send(header_b, message_b) succeeds")  # noqa: E712
+    is_a("after send(header_b, message_b)")
+    sent0 = len(radio.sent)
+    ctx.check(net.write(fa) == True, "write(frame_a) succeeds again")  # noqa: E712
+    is_a("after the second write(frame_a)")
+    pk = radio.sent[sent0:]
+    ctx.check(len(pk) == 1, "one frame on the air")
+    if len(pk) == 1:
+        w = [1, 0, 0, 0, ida & 0xFF, ida >> 8, ta, 0] + blist(msg_a)
+        ctx.check(len(pk[0]["data"]) == len(w) and bool(bytes_eq(pk[0]["data"], w)), "the second write(frame_a) puts frame A on the air")
     ctx.reached()
 
 
@@ -167,6 +202,10 @@ def jobs(tier):
         out.append(Job("O2-fragments-on-air-after-toggling-fragmentation", o2_fragments, dict(n=n, lossy=False, toggle=True), cost=2 + n // 24))
     for n in ((49, 72) if tier == "quick" else (25, 48, 49, 72, 97, 144)):
         out.append(Job("O2-fragments-through-an-outage", o2_fragments, dict(n=n, lossy="outage"), cost=30 + n // 4))
+    for n in ((49,) if tier == "quick" else (25, 49, 144)):
+        out.append(Job("O2-fragments-routed-without-NETWORK_ACK", o2_fragments, dict(n=n, lossy=False, routed=True), cost=10))
+    for n in ((5,) if tier == "quick" else (0, 5, 24)):
+        out.append(Job("O4-the-application-keeps-its-frame-object", o4_frame_objects, dict(n=n), cost=4))
     out.append(Job("O3-id-counter", o3_ids, {}))
     return out
 
